@@ -27,7 +27,7 @@ func init() {
 		Level: "other",
 		Explanation: "(R1) both frame writers (WriteControl and messageWriter.flushFrame) set the MASK bit exactly on the client edge (!isServer) and mask the payload there and only there; (R2) both reject control payloads above 125 bytes; the mask routine variants agree in signature across build configurations (thorough tier loads them).",
 		NotDecided: "round-trip equality of payloads (runtime bytes): that half of the property is not applicable to static analysis.",
-		Rules: map[string]string{"C30.R1": "K2: mask bit and masking on the client edge only", "C30.R2": "K2: control payload bound"},
+		Rules: map[string]string{"C30.R1": "K2: mask bit and masking on the client edge only", "C30.R2": "K2: control payload bound", "C30.R3": "K1: per-frame mask state (position restarts with every frame's key)"},
 		Run: runC30,
 	})
 	register(&PropMeta{
@@ -597,6 +597,86 @@ func runC30(c *Ctx) {
 	if mb != nil {
 		okSig := len(mb.Params) == 3 && mb.Signature.Results().Len() == 1
 		c.CheckAt("C30.R1", "websocket.maskBytes(key, pos, b) int ["+w.Config+"]", w.Pos(mb.Pos()), okSig, "mask routine variant of this build configuration")
+	}
+	runC30MaskState(c)
+}
+
+// runC30MaskState (C30.R3): RFC 6455 §5.3 restarts the masking key at offset 0 for every frame.
+// Reader: the function that stores a frame's masking key also stores readMaskPos = 0 on every path
+// through that store, and the running position is only advanced by the data read that unmasks with it.
+// Writer: each frame is masked from position 0 of its own key.
+func runC30MaskState(c *Ctx) {
+	w := c.W
+	nKey := 0
+	for _, f := range w.AllFuncs {
+		if !w.inModule(f) || !strings.Contains(FuncName(f), "websocket") || strings.HasSuffix(w.Pos(f.Pos()), "_test.go") {
+			continue
+		}
+		var keyWrites []ssa.Instruction
+		EachInstr(f, func(in ssa.Instruction) {
+			call, ok := in.(*ssa.Call)
+			if !ok {
+				return
+			}
+			if b, isB := call.Call.Value.(*ssa.Builtin); isB && b.Name() == "copy" && len(call.Call.Args) == 2 {
+				if sl, ok := call.Call.Args[0].(*ssa.Slice); ok {
+					if fa, ok := sl.X.(*ssa.FieldAddr); ok && fieldAddrIs(fa, "Conn", "readMaskKey") {
+						keyWrites = append(keyWrites, in)
+					}
+				}
+			}
+		})
+		for _, st := range storesToField(f, false, "Conn", "readMaskKey") {
+			keyWrites = append(keyWrites, st)
+		}
+		if len(keyWrites) == 0 {
+			continue
+		}
+		reset := func(in ssa.Instruction) bool {
+			st, ok := in.(*ssa.Store)
+			if !ok {
+				return false
+			}
+			fa, ok := st.Addr.(*ssa.FieldAddr)
+			if !ok || !fieldAddrIs(fa, "Conn", "readMaskPos") {
+				return false
+			}
+			v, isC := constIntOf(st.Val)
+			return isC && v == 0
+		}
+		for _, kw := range keyWrites {
+			nKey++
+			target := kw
+			before := PathQ{Stop: reset, Goal: func(in ssa.Instruction) bool { return in == target }}.FromEntry(f) != nil
+			after := PathQ{Stop: reset, Goal: isReturn}.From(kw) != nil
+			c.Check("C30.R3", kw, "a new frame's masking key restarts the mask position at 0 in the same function", !(before && after),
+				"RFC 6455 masks every frame from offset 0 of its own key: carrying the position of the previous frame over unmasks a continuation frame whose predecessor's length is not a multiple of 4 with the wrong key bytes")
+		}
+	}
+	c.Anchor("C30.R3", "store of a received frame's masking key", nKey >= 1)
+	// the running position only advances through maskBytes over the bytes just read
+	for _, st := range w.FieldStores("Conn", "readMaskPos") {
+		if v, isC := constIntOf(st.Val); isC && v == 0 {
+			continue
+		}
+		ok := false
+		if call, isCall := st.Val.(*ssa.Call); isCall {
+			if cal := call.Call.StaticCallee(); cal != nil && cal.Name() == "maskBytes" && len(call.Call.Args) == 3 {
+				ok = loadsField(call.Call.Args[1], "Conn", "readMaskPos") && strings.Contains(D(call.Call.Args[0]), "readMaskKey")
+			}
+		}
+		c.Check("C30.R3", st, "mask position advances only by unmasking the bytes just read with the frame's key", ok, "value "+D(st.Val))
+	}
+	// writer: each outgoing frame is masked from position 0
+	for _, name := range []string{"(*Conn).WriteControl", "(*messageWriter).flushFrame"} {
+		fn := w.Func("internal/websocket", name)
+		if fn == nil {
+			continue
+		}
+		for _, m := range CallsIn(fn, false, w.calleeIs("websocket.maskBytes", "maskBytes")) {
+			v, isC := constIntOf(m.Common().Args[1])
+			c.Check("C30.R3", m, "outgoing frame masked from position 0 of its key", isC && v == 0, "got "+D(m.Common().Args[1]))
+		}
 	}
 }
 
